@@ -100,6 +100,7 @@ func runCase(phase string, i int) worker.Result {
 	o.Indexes = 1 + n/8
 	o.DupMediaType = rng.IntN(3) == 0 // same bytes under two media types: the destination (memory) keys by media type
 	o.AbsentSubjects = false
+	o.MixedCaseConfigTypes = true
 	var f filterSpec
 	depth := []int{0, 0, 0, 1, 2, 3}[rng.IntN(6)]
 	choicesNoMeta := []string{"sbom", "sig", "example", "config", "artifact"}
@@ -111,7 +112,7 @@ func runCase(phase string, i int) worker.Result {
 	case 0, 1:
 		f.Kind = "artifactType"
 		o.Docker = false
-		choices := []string{"^application/vnd\\.test\\.sig$", "sbom", "^application/vnd\\.oci\\.image\\.config", "vnd\\.test\\.config", "nomatch-zzz", "^application/vnd\\.example\\+type$", "artifact$", "^$", "."}
+		choices := []string{"^application/vnd\\.test\\.sig$", "sbom", "^application/vnd\\.oci\\.image\\.config", "vnd\\.test\\.config", "nomatch-zzz", "^application/vnd\\.example\\+type$", "artifact$", "^$", ".", "CNAB", "cnab", "^application/vnd\\.CNAB\\.Config"}
 		f.Regex = choices[rng.IntN(len(choices))]
 		if remote && rng.IntN(2) == 0 {
 			f.Regex = choicesNoMeta[rng.IntN(len(choicesNoMeta))] // plain words: substring matches
@@ -438,6 +439,25 @@ func runCase(phase string, i int) worker.Result {
 			res.Violate("harness:populate", "pre-populate destination: "+err.Error(), nil)
 			return res
 		}
+	}
+	if api == "ExtendedCopy" && rng.IntN(5) == 0 {
+		// the destination already holds the node's own graph under the destination reference (an
+		// earlier plain Copy, or an earlier ExtendedCopy before the source gained referrers)
+		own := g.DownClosure([]int{start})
+		if err := gen.PushAll(ctx, dh.Target, g, own, func(e error) bool { return errors.Is(e, errdef.ErrAlreadyExists) }); err != nil {
+			res.Violate("harness:populate", "pre-populate destination with the node's own graph: "+err.Error(), nil)
+			return res
+		}
+		effRef := dstRef
+		if effRef == "" {
+			effRef = srcRef
+		}
+		if err := dh.Target.Tag(ctx, g.Nodes[start].Desc, effRef); err != nil {
+			res.Violate("harness:populate", "pre-tag destination: "+err.Error(), nil)
+			return res
+		}
+		prepop = append(prepop, own...)
+		res.Count("destinations_already_holding_the_node_under_the_reference", 1)
 	}
 	faultHit := false
 	if faultReferrers && sh.Reg != nil {
